@@ -105,6 +105,14 @@ class Interp(BuiltinsMixin):
             return App('global', Const(b.module.name),
                        Const(ast.unparse(node)[:60]),
                        self.snapshot(v, path))
+        if (isinstance(v, App) and v.op == 'call' and
+                isinstance(v.args[0], (ERef, CRef))) or (
+                isinstance(v, New) and isinstance(v.ci, ExtClass)):
+            # an object made at import time by a library constructor
+            # (weakref.WeakKeyDictionary(), collections.OrderedDict(), ..):
+            # one object shared by all calls
+            return App('global', Const(b.module.name),
+                       Const(ast.unparse(node)[:60]), v)
         return v
 
     def module_frame(self, module, path):
